@@ -31,6 +31,9 @@ BASES = [
                                ("c2", 1, [("sig", [("normfactor", "mu")]), ("bkg", [("shapesys", "ss2"), ("normsys", "n1")])])], "poi": "mu"}),
     ("base-shapefactor", {"channels": [("a1", 1, [("bkg", [("shapefactor", "sf"), ("histosys", "h1")])]),
                                         ("a2", 2, [("bkg", [("normsys", "n1")]), ("sig", [("normfactor", "mu")])])], "poi": "mu"}),
+    ("base-3c", {"channels": [("c1", 1, [("sig", [("normfactor", "mu"), ("shapesys", "ss1")]), ("bkg", [("histosys", "h1"), ("staterror", "st1")])]),
+                               ("c2", 2, [("sig", [("normfactor", "mu"), ("normsys", "n1")]), ("qcd", [("normsys", "n1")])]),
+                               ("c3", 3, [("bkg", [("histosys", "h1"), ("staterror", "st3")]), ("qcd", [("shapesys", "ss3")])])], "poi": "mu"}),
     ("base-lumi", {"channels": [("c1", 2, [("sig", [("normfactor", "mu"), ("lumi", "lumi")]), ("bkg", [("staterror", "st"), ("lumi", "lumi")])])], "poi": "mu"}),
 ]
 
@@ -105,6 +108,11 @@ def faults(name, spec):
                         else:
                             mm["data"] = sym_list("f.u", nb)
                         out.append(("modifier-data-length-differs-from-bin-count", f"{c['name']}.{s['name']}.{m['type']}/{m['name']}{delta:+d}", s2, None))
+                        if m["type"] == "histosys":
+                            for only in ("hi_data", "lo_data"):
+                                s3 = copy.deepcopy(spec)
+                                s3["channels"][ci]["samples"][si]["modifiers"][mi]["data"][only] = sym_list("f1." + only[:2], nb)
+                                out.append(("modifier-data-length-differs-from-bin-count", f"{c['name']}.{s['name']}.histosys/{m['name']}.{only}{delta:+d}", s3, None))
     # 6. one parameter name with conflicting constraint types or sizes
     names = [(ci, si, mi, m) for ci, c in enumerate(chs) for si, s in enumerate(c["samples"]) for mi, m in enumerate(s["modifiers"])]
     fam = {"normfactor": "free1", "normsys": "normal1", "histosys": "normal1", "lumi": "lumi", "shapesys": "poisN", "staterror": "normalN", "shapefactor": "freeN"}
@@ -114,6 +122,14 @@ def faults(name, spec):
                 s2 = copy.deepcopy(spec)
                 s2["channels"][cj]["samples"][sj]["modifiers"][mj]["name"] = m["name"]
                 out.append(("parameter-name-with-conflicting-constraint", f"{m2['type']}@{cj}.{sj}:={m['type']}/{m['name']}", s2, None))
+    # 6b. a modifier type that cannot be shared (shapesys) reused under one name by two samples, adjacent or not, same channel or not
+    shp = [(ci, si, mi, m) for (ci, si, mi, m) in names if m["type"] == "shapesys"]
+    for (ci, si, mi, m) in shp:
+        for (cj, sj, mj, m2) in shp:
+            if (ci, si, mi) != (cj, sj, mj):
+                s2 = copy.deepcopy(spec)
+                s2["channels"][cj]["samples"][sj]["modifiers"][mj]["name"] = m["name"]
+                out.append(("non-shareable-modifier-name-reused", f"shapesys@{cj}.{sj}:={m['name']}", s2, None))
     # 7. override of the wrong length
     pnames = sorted({(m["name"], m["type"]) for _, _, _, m in names})
     for pn, pt in pnames:
@@ -190,6 +206,15 @@ def compensating_faults(name, spec):
                         data = {"hi_data": sym_list(f"cmp{ck}.hi", nbad), "lo_data": sym_list(f"cmp{ck}.lo", nbad)} if t == "histosys" else sym_list(f"cmp{ck}.u", nbad)
                         smp["modifiers"].append({"name": f"cmp_{t}" if t == "histosys" else f"cmp_st_{ck}", "type": t, "data": data})
                     out.append(("compensating-length-errors-in-two-channels", f"{t}:{sn}@{c['name']}{d1 - nb1:+d},{c2['name']}{d2 - nb2:+d}", s2, None))
+                    if t == "histosys":
+                        for only in ("hi_data", "lo_data"):
+                            s3 = copy.deepcopy(spec)
+                            for ck, nbad, nbok in ((ci, d1, nb1), (cj, d2, nb2)):
+                                smp = next(s for s in s3["channels"][ck]["samples"] if s["name"] == sn)
+                                smp["modifiers"] = [m for m in smp["modifiers"] if m["type"] != t]
+                                data = {"hi_data": sym_list(f"cmp{ck}.hi", nbad if only == "hi_data" else nbok), "lo_data": sym_list(f"cmp{ck}.lo", nbad if only == "lo_data" else nbok)}
+                                smp["modifiers"].append({"name": "cmp_histosys", "type": t, "data": data})
+                            out.append(("compensating-length-errors-in-two-channels", f"{t}.{only}:{sn}@{c['name']}{d1 - nb1:+d},{c2['name']}{d2 - nb2:+d}", s3, None))
     return out
 
 
@@ -258,27 +283,40 @@ def _jsonable(x):
     return x
 
 
-def make_task(base, skel, part):
+def make_task(base, skel, part, lo, hi):
     def task(T):
         spec, _ = K.build_spec(skel)
         fl = faults(base, spec) if part == "single" else (shared_binwise_faults(base, spec) + compensating_faults(base, spec))
+        fl = fl[lo:hi]
         for cls, tag, fspec, poi_override in fl:
             poi = poi_override if poi_override is not None else skel.get("poi")
             run_fault(T, base, cls, tag, fspec, poi, safety=(cls == "binwise-modifier-shared-across-different-bin-counts"))
-        T.bounded_block("fault injection", f"skeleton {base}: {len(fl)} faulty specifications ({part}), numbers symbolic", len(fl), 0)
-        # vacuity guard: the unfaulted skeleton itself is accepted
-        eng = T.engine(K.pipeline_policy())
-        res = eng.explore(lambda: K.make_model(eng, K.build_spec(skel)[0], skel.get("poi")))
-        ok = all(r.kind == "return" for r in res)
-        (T.ok if ok else T.fail)(f"pdf.py::Model.__init__#guard.unfaulted-skeleton-is-accepted|{base},{part}", *([] if ok else ["the base skeleton is rejected"]), kind="cover")
+        T.bounded_block("fault injection", f"skeleton {base}: faulty specifications {lo}..{lo + len(fl)} ({part}), numbers symbolic", len(fl), 0)
+        if lo == 0:
+            # vacuity guard: the unfaulted skeleton itself is accepted
+            eng = T.engine(K.pipeline_policy())
+            def guard():
+                gspec, gsym = K.build_spec(skel)
+                for c_ in gsym.positivity():
+                    eng.assume(c_)
+                return K.make_model(eng, gspec, skel.get("poi"))
+            res = eng.explore(guard)
+            ok = all(r.kind == "return" for r in res)
+            (T.ok if ok else T.fail)(f"pdf.py::Model.__init__#guard.unfaulted-skeleton-is-accepted|{base},{part}", *([] if ok else ["the base skeleton is rejected"]), kind="cover")
     return task
 
 
 def tasks(tier):
     out = []
+    CH = 8
     for base, skel in BASES:
-        out.append((f"faults[{base},single]", make_task(base, skel, "single")))
-        out.append((f"faults[{base},shared+pairs]", make_task(base, skel, "pairs")))
+        spec, _ = K.build_spec(skel)
+        n1 = len(faults(base, spec))
+        n2 = len(shared_binwise_faults(base, spec) + compensating_faults(base, spec))
+        for lo in range(0, n1, CH):
+            out.append((f"faults[{base},single,{lo}]", make_task(base, skel, "single", lo, lo + CH)))
+        for lo in range(0, max(n2, 1), CH):
+            out.append((f"faults[{base},shared+pairs,{lo}]", make_task(base, skel, "pairs", lo, lo + CH)))
     return out
 
 
